@@ -179,7 +179,7 @@ def make(targets, timeout=1500, force=()):
 
 
 def coqc_file(path, timeout=900):
-    cmd = ["timeout", str(timeout), "coqc", "-Q", os.path.join(COQ, "theories"), "MP", path]
+    cmd = ["timeout", str(timeout), "coqc", "-noglob", "-Q", os.path.join(COQ, "theories"), "MP", path]
     p = subprocess.run(cmd, cwd=os.path.dirname(path), stdout=subprocess.PIPE, stderr=subprocess.STDOUT,
                        universal_newlines=True)
     return p.returncode, p.stdout
@@ -194,7 +194,7 @@ def coqc_many(paths, timeout=900):
     while pending or running:
         while pending and len(running) < NPROC:
             path = pending.pop(0)
-            cmd = ["timeout", str(timeout), "coqc", "-Q", os.path.join(COQ, "theories"), "MP", path]
+            cmd = ["timeout", str(timeout), "coqc", "-noglob", "-Q", os.path.join(COQ, "theories"), "MP", path]
             pr = subprocess.Popen(cmd, cwd=os.path.dirname(path), stdout=subprocess.PIPE,
                                   stderr=subprocess.STDOUT, universal_newlines=True)
             running.append((path, pr))
